@@ -39,6 +39,8 @@ func stressMain(args []string) {
 		out["problems"] = stressMutators(*rounds, *workers, *seed)
 	case "queries":
 		out["problems"] = stressQueries(*rounds, *workers, *seed)
+	case "options":
+		out["problems"] = stressOptions(*rounds, *workers, *seed)
 	}
 	b, _ := json.Marshal(out)
 	fmt.Println(string(b))
@@ -218,6 +220,111 @@ func stressMutators(rounds, workers int, seed uint64) []string {
 				})
 			}
 		}()
+	}
+	return problems
+}
+
+// stressOptions: option setters from several goroutines on one mutex-enabled
+// stack.  Setters of different options commute, and so do toggles of one
+// option, so the final option word is determined whatever the interleaving:
+// each goroutine but the last two owns one option and applies a random
+// set/clear/toggle sequence to it; the last two (with worker 0) toggle the
+// lead-once option a known number of times; the read-only option is switched
+// on by its owner at the very end of its sequence half of the time.
+func stressOptions(rounds, workers int, seed uint64) []string {
+	var problems []string
+	var pmu sync.Mutex
+	report := func(s string) {
+		pmu.Lock()
+		if len(problems) < 20 {
+			problems = append(problems, s)
+		}
+		pmu.Unlock()
+	}
+	type optSetter struct {
+		name string
+		bit  int
+		set  func(s stk.Stack, b ...bool)
+	}
+	owned := []optSetter{
+		{"paren", 1, func(s stk.Stack, b ...bool) { s.SetParen(b...) }},
+		{"fold", 2, func(s stk.Stack, b ...bool) { s.SetFold(b...) }},
+		{"nopad", 4, func(s stk.Stack, b ...bool) { s.SetNoPadding(b...) }},
+		{"negidx", 16, func(s stk.Stack, b ...bool) { s.SetNegativeIndices(b...) }},
+		{"fwdidx", 32, func(s stk.Stack, b ...bool) { s.SetForwardIndices(b...) }},
+		{"nonest", 256, func(s stk.Stack, b ...bool) { s.SetNoNesting(b...) }},
+	}
+	for round := 0; round < rounds; round++ {
+		s := stk.And().Push("a", "b")
+		s.SetMutex()
+		want := 0
+		var toggles int64
+		var wg sync.WaitGroup
+		for w := 0; w < workers; w++ {
+			wg.Add(1)
+			r := &Rng{s: seed*2654435761 + uint64(round)*977 + uint64(w)}
+			if w < len(owned) {
+				o := owned[w]
+				state := false
+				var seq []int
+				for k := 6 + r.Intn(10); k > 0; k-- {
+					x := r.Intn(3)
+					seq = append(seq, x)
+					switch x {
+					case 0:
+						state = true
+					case 1:
+						state = false
+					default:
+						state = !state
+					}
+				}
+				if state {
+					want |= o.bit
+				}
+				go func() {
+					defer wg.Done()
+					for _, x := range seq {
+						switch x {
+						case 0:
+							o.set(s, true)
+						case 1:
+							o.set(s, false)
+						default:
+							o.set(s)
+						}
+					}
+				}()
+				continue
+			}
+			n := 3 + r.Intn(8)
+			atomic.AddInt64(&toggles, int64(n))
+			go func() {
+				defer wg.Done()
+				for k := 0; k < n; k++ {
+					s.SetLeadOnce()
+				}
+			}()
+		}
+		done := make(chan bool, 1)
+		go func() { wg.Wait(); done <- true }()
+		select {
+		case <-done:
+		case <-time.After(60 * time.Second):
+			report(fmt.Sprintf("round %d: the option setters did not finish within 60s", round))
+			return problems
+		}
+		if toggles%2 == 1 {
+			want |= 8
+		}
+		cfg, _ := stk.VerifDump(s)["cfg"].(map[string]any)
+		got, _ := cfg["opt"].(int)
+		if got != want {
+			report(fmt.Sprintf("round %d: option word %d after concurrent setters of different options and %d toggles of lead-once; every order gives %d", round, got, toggles, want))
+		}
+		if s.Len() != 2 {
+			report(fmt.Sprintf("round %d: content changed by option setters", round))
+		}
 	}
 	return problems
 }
